@@ -266,6 +266,10 @@ class BcastClientSide(Redis):
         return await super().delete_match(self._add_prefix(pattern))
 
     async def expire(self, key: Key, timeout: float):
+        if int(timeout * 1000) <= 0:
+            # redis deletes a key that is given a non-positive timeout
+            await self._local_cache.set(key, _empty_in_redis)
+            return await super().expire(self._add_prefix(key), timeout)
         local_value = await self._local_cache.get(key, default=_empty)
         if local_value not in (_empty, _empty_in_redis):
             await self._local_cache.expire(key, timeout)
